@@ -1191,6 +1191,408 @@ theorem finditer_append (f : Str) (hf : ∀ c r, f = c :: r → isUpper c = true
         · simp only [List.cons_append, finditerCondensed, hu, hp, Bool.false_eq_true, if_false]
           exact ih 0 (by omega)
 
+theorem spanP_snd_head (p : Nat → Bool) (s : Str) : ∀ c r, (spanP p s).2 = c :: r → p c = false := by
+  induction s with
+  | nil => intro c r h; simp [spanP] at h
+  | cons a s ih =>
+    intro c r h
+    by_cases ha : p a = true
+    · simp only [spanP, ha, if_true] at h
+      exact ih c r h
+    · simp only [spanP, ha, Bool.false_eq_true, if_false] at h
+      simp at h
+      rw [← h.1]; simpa using ha
+
+theorem condensedFold_append (a b : List (Str × Str)) (d : Comp) (n : Nat) :
+    condensedFold (a ++ b) d n =
+      match condensedFold a d n with
+      | none => none
+      | some (d', n') => condensedFold b d' n' := by
+  induction a generalizing d n with
+  | nil => rfl
+  | cons x a ih =>
+    obtain ⟨el, cnt⟩ := x
+    simp only [List.cons_append, condensedFold]
+    cases countOf cnt with
+    | none => rfl
+    | some v => exact ih _ _
+
+theorem condensedFold_shift (ms : List (Str × Str)) (d : Comp) (n : Nat) :
+    condensedFold ms d n = (condensedFold ms [] 0).map (fun p => (addAll d p.1, n + p.2)) := by
+  induction ms generalizing d n with
+  | nil => simp [condensedFold, addAll]
+  | cons x ms ih =>
+    obtain ⟨el, cnt⟩ := x
+    simp only [condensedFold]
+    cases countOf cnt with
+    | none => rfl
+    | some v =>
+      simp only []
+      rw [ih (addTo d el v), ih (addTo [] el v)]
+      cases condensedFold ms [] 0 with
+      | none => rfl
+      | some p =>
+        simp only [Option.map_some, Option.some.injEq, Prod.mk.injEq]
+        refine ⟨?_, by omega⟩
+        rw [addAll_assoc]
+        show _ = addAll (addAll d [(el, Num.add Num.zero v)]) p.1
+        simp [addAll, Num.zero_add]
+
+theorem parseCondensed_ok {s : Str} {d : Comp} (hs : s ≠ []) :
+    parseCondensed s = .ok d ↔
+      ((finditerCondensed 0 s).isEmpty = false ∧ condensedFold (finditerCondensed 0 s) [] 0 = some (d, s.length)) := by
+  have hs' : s.isEmpty = false := by simpa using hs
+  unfold parseCondensed
+  simp only [hs', Bool.false_eq_true, if_false]
+  cases hm : (finditerCondensed 0 s).isEmpty with
+  | true => simp
+  | false =>
+    simp only [Bool.false_eq_true, if_false, true_and]
+    cases hc : condensedFold (finditerCondensed 0 s) [] 0 with
+    | none => simp
+    | some p =>
+      obtain ⟨d', n⟩ := p
+      by_cases hn : n = s.length
+      · subst hn; simp
+      · simp [hn]
+
+theorem parseCondensed_append {l f : Str} {dl df : Comp} (hl : parseCondensed l = .ok dl)
+    (hf : parseCondensed f = .ok df) (hln : l ≠ []) (hfu : ∀ c r, f = c :: r → isUpper c = true)
+    (hfn : f ≠ []) : parseCondensed (l ++ f) = .ok (addAll dl df) := by
+  obtain ⟨hl1, hl2⟩ := (parseCondensed_ok hln).1 hl
+  obtain ⟨hf1, hf2⟩ := (parseCondensed_ok hfn).1 hf
+  have hne : l ++ f ≠ [] := by simp [hln]
+  rw [parseCondensed_ok hne, finditer_append f hfu l 0 (by omega)]
+  refine ⟨?_, ?_⟩
+  · cases h : finditerCondensed 0 l with
+    | nil => rw [h] at hl1; simp at hl1
+    | cons a as => simp
+  · rw [condensedFold_append, hl2]
+    simp only []
+    rw [condensedFold_shift, hf2]
+    simp
+
+theorem parseComponent_run_eq (s : Str) (h : ∀ r, s ≠ 91 :: r) : parseComponent s = parseCondensed s := by
+  unfold parseComponent
+  split
+  · next r => exact absurd rfl (h r)
+  · rfl
+
+/-- components → composition (the second half of `parse_chem_formula`) -/
+def parseComps (L : List Str) : Except Err Comp :=
+  match parseComponents L with
+  | .error e => .error e
+  | .ok ds => .ok (ds.foldl addAll [])
+
+theorem parseChem_eq (s : Str) :
+    parseChem s [] = match splitChem false [] s with
+      | .error e => .error e
+      | .ok L => parseComps L := by
+  unfold parseChem parseComps
+  simp only [bne_self_eq_false, Bool.false_eq_true, if_false]
+  cases splitChem false [] s <;> rfl
+
+/-- sequential composition of two parses, adding the dicts -/
+def bind2 (x y : Except Err Comp) : Except Err Comp :=
+  match x with
+  | .error e => .error e
+  | .ok a => match y with
+    | .error e => .error e
+    | .ok b => .ok (addAll a b)
+
+theorem foldl_addAll_base (Y : List Comp) (d : Comp) : Y.foldl addAll d = addAll d (Y.foldl addAll []) := by
+  induction Y generalizing d with
+  | nil => rfl
+  | cons y Y ih =>
+    simp only [List.foldl_cons]
+    rw [ih (addAll d y), ih (addAll [] y), addAll_assoc, addAll_addAll_nil]
+
+theorem parseComponents_append (X Y : List Str) :
+    parseComponents (X ++ Y) =
+      match parseComponents X with
+      | .error e => .error e
+      | .ok dx => match parseComponents Y with
+        | .error e => .error e
+        | .ok dy => .ok (dx ++ dy) := by
+  induction X with
+  | nil => cases h : parseComponents Y <;> simp [parseComponents, h]
+  | cons x X ih =>
+    simp only [List.cons_append, parseComponents, ih]
+    cases parseComponent x with
+    | error e => rfl
+    | ok d =>
+      cases parseComponents X with
+      | error e => rfl
+      | ok dx =>
+        cases parseComponents Y with
+        | error e => rfl
+        | ok dy => rfl
+
+theorem parseComps_append (X Y : List Str) : parseComps (X ++ Y) = bind2 (parseComps X) (parseComps Y) := by
+  unfold parseComps bind2
+  rw [parseComponents_append]
+  cases parseComponents X with
+  | error e => rfl
+  | ok dx =>
+    cases parseComponents Y with
+    | error e => rfl
+    | ok dy =>
+      simp only [List.foldl_append]
+      rw [foldl_addAll_base]
+
+theorem bind2_assoc (x y z : Except Err Comp) : bind2 (bind2 x y) z = bind2 x (bind2 y z) := by
+  cases x <;> cases y <;> cases z <;> simp [bind2, addAll_assoc]
+
+theorem parseComps_single (l : Str) :
+    parseComps [l] = match parseComponent l with
+      | .error e => .error e
+      | .ok d => .ok (addAll [] d) := by
+  unfold parseComps
+  simp only [parseComponents]
+  cases parseComponent l <;> rfl
+
+theorem parseComps_glue {l f : Str} (hl : ∃ d, parseComps [l] = .ok d) (hf : ∃ d, parseComps [f] = .ok d)
+    (hln : l ≠ []) (hl91 : ∀ r, l ≠ 91 :: r) (hfu : ∀ c r, f = c :: r → isUpper c = true) (hfn : f ≠ []) :
+    parseComps [l ++ f] = bind2 (parseComps [l]) (parseComps [f]) := by
+  have hf91 : ∀ r, f ≠ 91 :: r := by
+    intro r h; have := hfu 91 r h; simp [isUpper] at this
+  have hlf91 : ∀ r, l ++ f ≠ 91 :: r := by
+    intro r h
+    cases l with
+    | nil => exact hln rfl
+    | cons a t => simp at h; exact hl91 t (by rw [h.1])
+  obtain ⟨d1, h1⟩ := hl
+  obtain ⟨d2, h2⟩ := hf
+  rw [parseComps_single, parseComponent_run_eq _ hl91] at h1
+  rw [parseComps_single, parseComponent_run_eq _ hf91] at h2
+  rw [parseComps_single, parseComps_single, parseComps_single, parseComponent_run_eq _ hl91,
+    parseComponent_run_eq _ hf91, parseComponent_run_eq _ hlf91]
+  cases hc1 : parseCondensed l with
+  | error e => rw [hc1] at h1; cases h1
+  | ok dl =>
+    cases hc2 : parseCondensed f with
+    | error e => rw [hc2] at h2; cases h2
+    | ok df =>
+      rw [parseCondensed_append hc1 hc2 hln hfu hfn]
+      simp only [bind2]
+      rw [← addAll_assoc, addAll_addAll_nil]
+
+theorem splitChem_split (s₁ : Str) : ∀ (b : Bool) (acc : Str) (L₁ : List Str),
+    splitChem b acc s₁ = .ok L₁ → (b = true ∨ ∀ x ∈ acc, x ≠ 91) →
+    ∃ (L : List Str) (acc' : Str), L₁ = L ++ (if acc'.isEmpty then [] else [acc'.reverse]) ∧
+      (∀ x ∈ acc', x ≠ 91) ∧
+      ∀ s₂, splitChem b acc (s₁ ++ s₂) =
+        match splitChem false acc' s₂ with
+        | .ok M => .ok (L ++ M)
+        | .error e => .error e := by
+  induction s₁ with
+  | nil =>
+    intro b acc L₁ h hacc
+    cases b with
+    | true => simp [splitChem] at h
+    | false =>
+      simp only [splitChem, Except.ok.injEq] at h
+      refine ⟨[], acc, by simpa using h.symm, ?_, ?_⟩
+      · rcases hacc with h' | h'
+        · cases h'
+        · exact h'
+      · intro s₂
+        simp only [List.nil_append]
+        cases splitChem false acc s₂ <;> simp
+  | cons c r ih =>
+    intro b acc L₁ h hacc
+    cases b with
+    | false =>
+      have hacc' : ∀ x ∈ acc, x ≠ 91 := by
+        rcases hacc with h' | h'
+        · cases h'
+        · exact h'
+      by_cases h91 : c = 91
+      · subst h91
+        simp only [splitChem, beq_self_eq_true, if_true] at h
+        cases hr : splitChem true [91] r with
+        | error e => rw [hr] at h; cases h
+        | ok L' =>
+          rw [hr] at h
+          simp only [Except.ok.injEq] at h
+          obtain ⟨L, acc', hL, ha, hs⟩ := ih true [91] L' hr (.inl rfl)
+          refine ⟨(if acc.isEmpty then L else acc.reverse :: L), acc', ?_, ha, ?_⟩
+          · rw [← h, hL]; split <;> simp
+          · intro s₂
+            simp only [List.cons_append, splitChem, beq_self_eq_true, if_true, hs s₂]
+            cases splitChem false acc' s₂ with
+            | error e => rfl
+            | ok M => simp only []; split <;> simp
+      · by_cases h93 : c = 93
+        · subst h93
+          simp [splitChem] at h
+        · simp only [splitChem, beq_iff_eq, h91, h93, if_false] at h
+          obtain ⟨L, acc', hL, ha, hs⟩ := ih false (c :: acc) L₁ h
+            (.inr (by intro x hx; simp at hx; rcases hx with rfl | hx; exact h91; exact hacc' x hx))
+          refine ⟨L, acc', hL, ha, ?_⟩
+          intro s₂
+          simp only [List.cons_append, splitChem, beq_iff_eq, h91, h93, if_false, hs s₂]
+    | true =>
+      by_cases h93 : c = 93
+      · subst h93
+        simp only [splitChem, beq_self_eq_true, if_true] at h
+        cases hr : splitChem false [] r with
+        | error e => rw [hr] at h; cases h
+        | ok L' =>
+          rw [hr] at h
+          simp only [Except.ok.injEq] at h
+          obtain ⟨L, acc', hL, ha, hs⟩ := ih false [] L' hr (.inr (by simp))
+          refine ⟨(93 :: acc).reverse :: L, acc', ?_, ha, ?_⟩
+          · rw [← h, hL]; simp
+          · intro s₂
+            simp only [List.cons_append, splitChem, beq_self_eq_true, if_true, hs s₂]
+            cases splitChem false acc' s₂ with
+            | error e => rfl
+            | ok M => simp
+      · simp only [splitChem, beq_iff_eq, h93, if_false] at h
+        obtain ⟨L, acc', hL, ha, hs⟩ := ih true (c :: acc) L₁ h (.inl rfl)
+        refine ⟨L, acc', hL, ha, ?_⟩
+        intro s₂
+        simp only [List.cons_append, splitChem, beq_iff_eq, h93, if_false, hs s₂]
+
+theorem splitChem_head_run {s₂ : Str} {c : Nat} {r : Str} (hs : s₂ = c :: r) (hc : c ≠ 91 ∧ c ≠ 93)
+    {L₂ : List Str} (h : splitChem false [] s₂ = .ok L₂) :
+    ∃ f M, L₂ = f :: M ∧ (∃ r', f = c :: r') ∧ ∀ acc, splitChem false acc s₂ = .ok ((acc.reverse ++ f) :: M) := by
+  let p : Nat → Bool := fun x => x != 91 && x != 93
+  have hsp := spanP_spec p s₂
+  have hhd := spanP_snd_head p s₂
+  have hpc : p c = true := by simp [p, hc.1, hc.2]
+  obtain ⟨r', hf⟩ : ∃ r', (spanP p s₂).1 = c :: r' := by
+    rw [hs]; simp [spanP, hpc]
+  have hfree : ∀ x ∈ (spanP p s₂).1, x ≠ 91 ∧ x ≠ 93 := by
+    intro x hx; have := hsp.2 x hx; simpa [p] using this
+  have hrun : ∀ acc, splitChem false acc s₂ = splitChem false ((spanP p s₂).1.reverse ++ acc) (spanP p s₂).2 := by
+    intro acc
+    conv => lhs; rw [hsp.1]
+    exact splitChem_run _ _ _ hfree
+  have hne : ∀ acc, ((spanP p s₂).1.reverse ++ acc).isEmpty = false := by
+    intro acc; rw [hf]; simp
+  cases hrest : (spanP p s₂).2 with
+  | nil =>
+    refine ⟨(spanP p s₂).1, [], ?_, ⟨r', hf⟩, ?_⟩
+    · have := hrun []
+      rw [hrest] at this
+      rw [this] at h
+      simp only [splitChem, hne [], Bool.false_eq_true, if_false, Except.ok.injEq] at h
+      rw [← h]; simp
+    · intro acc
+      rw [hrun acc, hrest]
+      simp only [splitChem, hne acc, Bool.false_eq_true, if_false]
+      simp
+  | cons x rest =>
+    have hx : p x = false := hhd x rest hrest
+    have hx' : x = 91 ∨ x = 93 := by
+      simp only [p, Bool.and_eq_false_iff, bne_eq_false_iff_eq] at hx
+      exact hx
+    have h0 := hrun []
+    rw [hrest] at h0
+    rw [h0] at h
+    rcases hx' with rfl | rfl
+    · simp only [splitChem, beq_self_eq_true, if_true] at h
+      cases hr : splitChem true [91] rest with
+      | error e => rw [hr] at h; cases h
+      | ok M =>
+        rw [hr] at h
+        simp only [hne [], Bool.false_eq_true, if_false, Except.ok.injEq] at h
+        refine ⟨(spanP p s₂).1, M, ?_, ⟨r', hf⟩, ?_⟩
+        · rw [← h]; simp
+        · intro acc
+          rw [hrun acc, hrest]
+          simp only [splitChem, beq_self_eq_true, if_true, hr, hne acc, Bool.false_eq_true, if_false]
+          simp
+    · simp [splitChem] at h
+
+/-- **Parsing is additive on arbitrary formula strings**: if both parts parse and the second part starts a new token
+(an upper-case letter or a bracket), the composition of the concatenation is the dict sum of the compositions. -/
+theorem parseChem_append {s₁ s₂ : Str} {c₁ c₂ : Comp} (h₁ : parseChem s₁ [] = .ok c₁)
+    (h₂ : parseChem s₂ [] = .ok c₂) (hb : ∀ c r, s₂ = c :: r → isUpper c = true ∨ c = 91) :
+    parseChem (s₁ ++ s₂) [] = .ok (addAll c₁ c₂) := by
+  rw [parseChem_eq] at h₁ h₂ ⊢
+  cases hL1 : splitChem false [] s₁ with
+  | error e => rw [hL1] at h₁; cases h₁
+  | ok L₁ =>
+  cases hL2 : splitChem false [] s₂ with
+  | error e => rw [hL2] at h₂; cases h₂
+  | ok L₂ =>
+  rw [hL1] at h₁
+  rw [hL2] at h₂
+  simp only [] at h₁ h₂
+  obtain ⟨L, acc', hLeq, hacc, hsplit⟩ := splitChem_split s₁ false [] L₁ hL1 (.inr (by simp))
+  rw [hsplit s₂]
+  cases s₂ with
+  | nil =>
+    simp only [splitChem] at hL2 ⊢
+    simp only [Except.ok.injEq] at hL2
+    subst hL2
+    have : c₂ = [] := by simpa [parseComps, parseComponents] using h₂.symm
+    subst this
+    rw [← hLeq]
+    simpa [addAll] using h₁
+  | cons c r =>
+    rcases hb c r rfl with hu | h91
+    · -- the second part starts with an upper-case letter: the runs are glued
+      have hc : c ≠ 91 ∧ c ≠ 93 := by simp [isUpper] at hu; omega
+      obtain ⟨f, M, hL2eq, ⟨r', hfc⟩, hacc2⟩ := splitChem_head_run rfl hc hL2
+      rw [hacc2 acc']
+      simp only []
+      subst hL2eq
+      by_cases he : acc' = []
+      · subst he
+        simp only [List.isEmpty_nil, if_true, List.append_nil] at hLeq
+        subst hLeq
+        simp only [List.reverse_nil, List.nil_append]
+        rw [parseComps_append, h₁, h₂]; rfl
+      · have he' : acc'.isEmpty = false := by simpa using he
+        simp only [he', Bool.false_eq_true, if_false] at hLeq
+        subst hLeq
+        have hln : acc'.reverse ≠ [] := by simpa using he
+        have hl91 : ∀ t, acc'.reverse ≠ 91 :: t := by
+          intro t ht
+          have : (91 : Nat) ∈ acc' := by
+            have : (91 : Nat) ∈ acc'.reverse := by rw [ht]; simp
+            simpa using this
+          exact hacc 91 this rfl
+        have hfu : ∀ c' t, f = c' :: t → isUpper c' = true := by
+          intro c' t ht; rw [hfc] at ht; simp at ht; rw [← ht.1]; exact hu
+        have hfn : f ≠ [] := by rw [hfc]; simp
+        rw [parseComps_append] at h₁
+        have e2 : f :: M = [f] ++ M := rfl
+        rw [e2, parseComps_append] at h₂
+        have hl : ∃ d, parseComps [acc'.reverse] = .ok d := by
+          cases hx : parseComps L with
+          | error e => rw [hx] at h₁; cases h₁
+          | ok a =>
+            rw [hx] at h₁
+            cases hy : parseComps [acc'.reverse] with
+            | error e => rw [hy] at h₁; cases h₁
+            | ok d => exact ⟨d, rfl⟩
+        have hf : ∃ d, parseComps [f] = .ok d := by
+          cases hy : parseComps [f] with
+          | error e => rw [hy] at h₂; cases h₂
+          | ok d => exact ⟨d, rfl⟩
+        have e3 : L ++ (acc'.reverse ++ f) :: M = L ++ ([acc'.reverse ++ f] ++ M) := rfl
+        rw [e3, parseComps_append, parseComps_append, parseComps_glue hl hf hln hl91 hfu hfn, bind2_assoc,
+          ← bind2_assoc, h₁, h₂]
+        rfl
+    · -- the second part starts with a bracket: the component lists are concatenated
+      subst h91
+      simp only [splitChem, beq_self_eq_true, if_true] at hL2 ⊢
+      cases hr : splitChem true [91] r with
+      | error e => rw [hr] at hL2; cases hL2
+      | ok M =>
+        rw [hr] at hL2
+        simp only [List.isEmpty_nil, if_true, Except.ok.injEq] at hL2
+        subst hL2
+        simp only []
+        have : L ++ (if acc'.isEmpty then M else acc'.reverse :: M) = L₁ ++ M := by
+          rw [hLeq]; split <;> simp
+        rw [this, parseComps_append, h₁, h₂]; rfl
+
 /-! ## the domain of C15 stated without reference to the printed text
 
 `NumWF v` (a Python int, or a float that is a finite decimal) implies `NumOK v` (`Lemmas/NumText.lean`). -/
